@@ -163,7 +163,13 @@ pub fn run(toks: &[&str]) -> String {
         }
         i += 1;
     } }
-    let out = Command::new(&slicec).args(&argv).current_dir(&w).env("FAKEGEN_DIR", dir.join("gens")).env("NO_COLOR", "1").output();
+    // "--vh-force-color" (not passed on): the console library is told through the environment that colours are wanted
+    let force_color = argv.iter().any(|a| a == "--vh-force-color");
+    argv.retain(|a| a != "--vh-force-color");
+    let mut cmd = Command::new(&slicec);
+    cmd.args(&argv).current_dir(&w).env("FAKEGEN_DIR", dir.join("gens"));
+    if force_color { cmd.env_remove("NO_COLOR").env("CLICOLOR_FORCE", "1"); } else { cmd.env("NO_COLOR", "1"); }
+    let out = cmd.output();
     let (status, so, se) = match out {
         Ok(o) => (match o.status.code() { Some(c) => format!("exit={c}"), None => "exit=signal".to_string() }, o.stdout, o.stderr),
         Err(e) => (format!("exit=spawnfail:{e}"), vec![], vec![]),
